@@ -1,4 +1,5 @@
 // verif-harness — drives the real memcrs crate for the correspondence checks.
+mod conc;
 mod conn;
 mod gen;
 mod seq;
@@ -88,6 +89,45 @@ fn main() {
                 keys.sort();
                 let body: Vec<String> = keys.iter().map(|(k, v)| format!("\"{}\": {}", k, v)).collect();
                 fs::write(p, format!("{{{}}}\n", body.join(", "))).unwrap();
+            }
+        }
+        "conc-gen" => {
+            let seed: u64 = arg(&args, "--seed").unwrap_or("1").parse().unwrap();
+            let cases: usize = arg(&args, "--cases").unwrap_or("50").parse().unwrap();
+            let flavor = arg(&args, "--flavor").unwrap_or("base").to_string();
+            let mut trace = String::new();
+            let mut obs = String::new();
+            let mut monitor = String::new();
+            let (stuck, steps) = conc::run_gen(seed, cases, &flavor, &mut trace, &mut obs, &mut monitor);
+            fs::write(arg(&args, "--trace").expect("--trace"), trace).unwrap();
+            fs::write(arg(&args, "--obs").expect("--obs"), obs).unwrap();
+            fs::write(arg(&args, "--monitor").expect("--monitor"), monitor).unwrap();
+            if let Some(p) = arg(&args, "--stats") {
+                fs::write(p, format!("{{\"conc_cases\": {}, \"conc_steps\": {}, \"stuck\": {}}}\n", cases, steps, stuck)).unwrap();
+            }
+        }
+        "conc-sweep" => {
+            let seed: u64 = arg(&args, "--seed").unwrap_or("1").parse().unwrap();
+            let cases: usize = arg(&args, "--cases").unwrap_or("200").parse().unwrap();
+            let millis: u64 = arg(&args, "--stress-ms").unwrap_or("1500").parse().unwrap();
+            let mut monitor = String::new();
+            let (stuck, steps) = conc::run_sweep(seed, cases, &mut monitor);
+            let ops = if stuck == 0 { conc::run_stress(seed, 16, millis, &mut monitor) } else { 0 };
+            fs::write(arg(&args, "--monitor").expect("--monitor"), monitor).unwrap();
+            if let Some(p) = arg(&args, "--stats") {
+                fs::write(p, format!("{{\"sweep_cases\": {}, \"sweep_steps\": {}, \"stress_ops\": {}, \"stuck\": {}}}\n", cases, steps, ops, stuck)).unwrap();
+            }
+        }
+        "conc-replay" => {
+            let text = fs::read_to_string(arg(&args, "--in").expect("--in")).unwrap();
+            let mut trace = String::new();
+            let mut obs = String::new();
+            let mut monitor = String::new();
+            conc::run_cases(1, 0, "replay", conc::parse_trace(&text), &mut trace, &mut obs, &mut monitor);
+            fs::write(arg(&args, "--trace").expect("--trace"), trace).unwrap();
+            fs::write(arg(&args, "--obs").expect("--obs"), obs).unwrap();
+            if let Some(m) = arg(&args, "--monitor") {
+                fs::write(m, monitor).unwrap();
             }
         }
         "probe-listener" => {
